@@ -2,6 +2,7 @@
 Every real call runs under a step budget: a non-terminating call is the observation !DIVERGED."""
 from collections import Counter
 
+import core
 from core import Suite, call, nats, ret_str
 
 BUDGET = 0.5
@@ -76,12 +77,15 @@ class QFSuite(Suite):
 
     def obs(self, qf, ret):
         d = {"ret": ret, "count": str(qf.elements_added), "size": str(qf.size), "q": str(qf.quotient)}
-        d["meta"] = qf._is_occupied.as_string() + "/" + qf._is_continuation.as_string() + "/" + qf._is_shifted.as_string()
-        d["rems"] = nats(qf._filter)
+        internals = core.qf_internals(qf)
+        if internals is not None:
+            d["meta"] = internals[0] + "/" + internals[1] + "/" + internals[2]
+            d["rems"] = nats(internals[3])
         res = call(qf.get_hashes, budget=BUDGET)
         d["hashes"] = nats(sorted(res[1])) if res[0] == "ok" else res[1]
         # the real arrays must equal the canonical layout computed by the specification from the stored set
-        d["layout"] = d["meta"] + "/" + d["rems"] if res[0] == "ok" and len(res[1]) < qf.size else ("full" if res[0] == "ok" else res[1])
+        if "meta" in d:
+            d["layout"] = d["meta"] + "/" + d["rems"] if res[0] == "ok" and len(res[1]) < qf.size else ("full" if res[0] == "ok" else res[1])
         return d
 
     def run_real(self, seq):
@@ -111,7 +115,7 @@ class QFSuite(Suite):
                 if res[0] == "err":
                     D["err:" + res[1]] += 1
                 d = self.obs(qf, ret_str(res))
-                m = d["meta"].split("/")
+                m = d.get("meta", "//").split("/")
                 if m[2].endswith("1") or m[1].endswith("1"):
                     D["wraps-or-touches-end"] += 1
                 if "11" in m[1]:
